@@ -180,6 +180,18 @@ async def run_script(job):
                     ev("handshook", s=c["s"], ok=name.decode() == str(pool) + "\n", text=name.decode()[:80])
                 except Exception as e:
                     ev("handshook", s=c["s"], ok=False, text=type(e).__name__)
+            elif k == "wait":
+                # a raw client sends a command whose wait does not end (the pool is never closed) and does not wait for a reply
+                cl = clients.get(c["s"])
+                if cl is None or cl.w is None:
+                    continue
+                try:
+                    cl.w.write(b"until-closed\n")
+                    await cl.w.drain()
+                    await asyncio.sleep(0.05)
+                    ev("sentwait", s=c["s"])
+                except Exception as e:
+                    ev("sentwait", s=c["s"], err=type(e).__name__)
             elif k == "cmd":
                 cl = clients.get(c["s"])
                 line, exp = LINES.get(c["cls"], "num-running"), None
